@@ -356,6 +356,13 @@ func main() {
 			t.resume <- struct{}{}
 		}
 	}
+	// a thread that was still running when the schedule ended (the driver had taken it for blocked) may have looked at the free flag just
+	// before it was set and be parking now: whoever reports a yield point from here on is sent on at once
+	lateResume := func(e event) {
+		if e.point != "" {
+			threads[e.tid].resume <- struct{}{}
+		}
+	}
 	var unreleased []unrel
 	if len(mustRelease) > 0 {
 		grace := time.After(time.Duration(atoi("timeout_ms")) * time.Millisecond)
@@ -365,7 +372,8 @@ func main() {
 			select {
 			case <-grace:
 				break graceLoop
-			case <-events:
+			case e := <-events:
+				lateResume(e)
 			case <-time.After(time.Millisecond):
 			}
 			var still []unrel
@@ -395,7 +403,8 @@ wait:
 			break wait
 		case <-deadline:
 			break wait
-		case <-events:
+		case e := <-events:
+			lateResume(e)
 		case <-time.After(2 * time.Millisecond):
 			if freeFlush && !closing {
 				if s.Flush() == nil {
